@@ -18,3 +18,10 @@ const (
 	cr = '\r'
 	lf = '\n'
 )
+
+const (
+	// MaxBulkLength is the maximum accepted length of a bulk string (512MB, the same as proto-max-bulk-len of Redis).
+	MaxBulkLength = 512 * 1024 * 1024
+	// MaxArrayLength is the maximum accepted number of elements of an array (the same as the multibulk limit of Redis).
+	MaxArrayLength = 1024 * 1024
+)
